@@ -627,7 +627,9 @@ def w_iterdel( ctx ):
     SHARED = (( 'server/enip/device.py', 'self.forwards', 'Connection_Manager.forwards: class-level, one entry per open connection of every session' ),
               ( 'server/enip/device.py', 'self.__class__.forwards', 'the same table' ), ( 'server/enip/device.py', 'Connection_Manager.forwards', 'the same table' ),
               ( 'server/enip/ucmm.py', 'self.__class__.sessions', 'UCMM.sessions: class-level, one entry per registered peer' ), ( 'server/enip/ucmm.py', 'self.sessions', 'the same table' ),
-              ( 'server/enip/main.py', 'connections', 'main.connections: module-level statistics, one entry per live connection' ))
+              ( 'server/enip/main.py', 'connections', 'main.connections: module-level statistics, one entry per live connection' ),
+              ( 'server/enip/device.py', 'symbol', 'device.symbol: the module-level tag table - redirect_tag adds to it whenever a tag is set up, from any session' ),
+              ( 'server/enip/device.py', 'directory', 'device.directory: the module-level object directory - Objects are created on demand' ))
     SNAP = ( 'list', 'tuple', 'sorted', 'dict', 'set', 'frozenset', 'len' )
     walks = 0
     for rel, base, why in SHARED:
